@@ -210,11 +210,19 @@ def check_C02(work, tier, seed):
     b = build(work)
     sc = gen_c02(seed, tier)
     lines = conform(work, b, "C02", seed, sc.text(), out)
+    # the 32-bit-word and 16-bit-row (byte-order-neutral) code paths on the same inputs
+    for name, defs in (("w32", ["SKINNY_VERIF_64BIT=0"]),
+                       ("w32-neutral", ["SKINNY_VERIF_64BIT=0", "SKINNY_VERIF_LITTLE_ENDIAN=0",
+                                        "SKINNY_VERIF_VEC128_MATH=0", "SKINNY_VERIF_VEC256_MATH=0"])):
+        b2 = build(work, name=name, defs=defs, built128=0 if "neutral" in name else 1,
+                   built256=0 if "neutral" in name else 1)
+        axis_compare(work, "C02", seed, out, lines, name, b2, sc.text(), "-" + name)
     note_distinct(out, lines, ("o", "tweak", "mode", "nr"))
     out.samples = sample_events(lines)
     return out, dict(
         level="exploration",
-        rule="MANTIS-5..8: published vectors through stored and per-call tweak paths, both modes; reduced rounds "
+        rule="(default, 32-bit-word and byte-order-neutral builds) "
+             "MANTIS-5..8: published vectors through stored and per-call tweak paths, both modes; reduced rounds "
              "0..3 with every cell value in every block and tweak cell position; walking key and tweak bytes at full "
              "rounds; seeded random (key,tweak,block,rounds,mode) with fresh-key-zero-tweak probe. Oracle: "
              "MantisSpec.tla evaluated by TLC on schedule image (k0,k0',k1,tweak,rounds) and output.",
@@ -1348,6 +1356,14 @@ def check_C17(work, tier, seed):
     life_mc(work, out, "C17", tier)
     b = build(work)
     lines = backend_sweep(work, b, "C17", seed, lambda cf: gen_c17(seed, tier, cf), out)
+    # spec -> impl: cleanup IMMEDIATELY after every transition of the CTR and parallel machines with
+    # key-size classes (long -> short re-keying, buffer used up exactly, position just reset, ...)
+    lines += backend_sweep(work, b, "C17", seed + 77,
+                           lambda cf: graph_ctr_scenarios(work, seed, cf, Outcome(), cfg="Gen_Ctr_sizes", probe=False), out)
+    lines += backend_sweep(work, b, "C17", seed + 81,
+                           lambda cf: graph_par_scenarios(work, seed, cf, Outcome(), cfg="Gen_Par_sizes", probe=False), out)
+    graph_ctr_scenarios(work, seed, lambda k: 2, out, kinds=(), cfg="Gen_Ctr_sizes")
+    graph_par_scenarios(work, seed, lambda k: 2, out, kinds=(), cfg="Gen_Par_sizes")
     lines += conform(work, b, "C17", seed + 1, gen_c15(seed + 1, "quick").text(), out, tag="-hist")
     note_distinct(out, lines, ("o", "nz", "nf", "cap"))
     out.samples = sample_events([x for x in lines if "cleanup" in x], maxlen=200)
@@ -1356,7 +1372,10 @@ def check_C17(work, tier, seed):
         rule="Design: MC_Life WipedAtFree (every block is clean when released) over all interleavings. Code: "
              "histories that dirty every region of the context (round keys, tweak, counters, keystream buffer with "
              "the offset mid-buffer) before cleanup, plus the random life-cycle histories, for every kind and back "
-             "end (context layouts differ); the wrapped free() counts the non-zero bytes of the whole block as "
+             "end (context layouts differ); cleanup immediately after EVERY transition of the CTR and parallel "
+             "machines with key-size classes (state graphs Gen_Ctr_sizes: 15 states/471 edges, Gen_Par_sizes), so "
+             "that every final context state is reached: re-keyed long->short, buffer exactly used up, position "
+             "just reset, failed/never keyed; the wrapped free() counts the non-zero bytes of the whole block as "
              "allocated before releasing it, the trace spec requires 0 at every cleanup.",
         assumptions=LIFE_ASSUME)
 
@@ -2547,45 +2566,42 @@ def _label(l):
     return name, [a.strip().strip('"') for a in _re.findall(r'<<[^>]*>>|"[^"]*"|[^,]+', args)] if args else []
 
 
-def graph_ctr_scenarios(work, seed, cap_for, out, kinds=("s128", "s64", "mantis")):
-    """every edge of Gen_Ctr's state graph, concretised for each kind"""
-    init, edges, nn = dump_graph(work, "Gen_Ctr", "Gen_Ctr")
+def graph_ctr_scenarios(work, seed, cap_for, out, kinds=("s128", "s64", "mantis"), cfg="Gen_Ctr", probe=True):
+    """every edge of Gen_Ctr's state graph, concretised for each kind.  probe=True: valid calls after the
+    last transition show its effect (error contract); probe=False: cleanup follows IMMEDIATELY, whatever
+    state the last transition left the context in (wipe contract)."""
+    init, edges, nn = dump_graph(work, "Gen_Ctr", cfg)
     seqs = edge_cover(init, edges)
-    out.notes.append("Gen_Ctr graph: %d states, %d edges, %d edge-covering call sequences per kind" % (nn, len(edges), len(seqs)))
-    out.mc.append({"model": "Gen_Ctr (state graph dumped for scenario generation)", "states": nn, "transitions": len(edges),
-                   "ok": True, "violated": None, "expected_to_fail": False, "actions": {}})
+    out.notes.append("%s graph: %d states, %d edges, %d edge-covering call sequences per kind" % (cfg, nn, len(edges), len(seqs)))
+    if not kinds:
+        out.mc.append({"model": "%s (state graph dumped for scenario generation)" % cfg, "states": nn,
+                       "transitions": len(edges), "ok": True, "violated": None, "expected_to_fail": False, "actions": {}})
     sc = Sc(seed + 77)
     for kind in kinds:
         bs = BS[kind]
         tl = 8 if kind == "mantis" else bs
         for si, seq in enumerate(seqs):
-            if si % 40 == 0:
-                pass
             sc.reset("g-ctr-%s-%d" % (kind, si))
-            live, j = False, 0
+            live, j, since = False, 0, 0
             for lab in seq:
                 name, a = _label(lab)
                 if name == "DoInit":
                     fail = a[0] == "TRUE"
                     sc.ctr_init(kind, 0, cap=cap_for(kind), fail=1 if fail else None,
                                 prefill=sc.rng.choice([None, 0, 0xA5]) if not live else None)
-                    live, j = (not fail), 0
+                    live, j, since = (not fail), 0, 0
                 elif name == "DoCleanup":
                     sc.ctr_cleanup(kind, 0)
                     live = False
                 elif name in ("DoSetKey", "DoSetTweakedKey"):
-                    cls = a[0]
+                    cls, z = a[0], int(a[1])
                     tweaked = name == "DoSetTweakedKey"
                     setk = sc.ctr_set_tweaked_key if (tweaked and kind != "mantis") else sc.ctr_set_key
-                    kw = {"rounds": 6} if kind == "mantis" or not tweaked else {}
-                    if kind != "mantis" and not tweaked:
-                        kw = {}
+                    kw = {"rounds": 5 + (z % 4)} if (kind == "mantis" or not tweaked) else {}
                     if cls == "valid":
-                        setk(kind, 0, valid_key(sc, kind, tweaked), **kw)
-                        if tweaked and kind == "mantis":
-                            pass
+                        setk(kind, 0, sc.rb_nz(16 if kind == "mantis" else z * bs), **kw)
                         if live:
-                            j = 0
+                            j, since = 0, (since + bs - 1) // bs * bs
                     elif cls == "null":
                         setk(kind, 0, None, bs, **kw)
                     elif cls == "short":
@@ -2599,46 +2615,56 @@ def graph_ctr_scenarios(work, seed, cap_for, out, kinds=("s128", "s64", "mantis"
                             setk(kind, 0, b"", 0)
                 elif name == "DoSetTweak":
                     cls = a[0]
+                    if cls in ("full", "short", "null") and live:
+                        j, since = 0, (since + bs - 1) // bs * bs
                     if cls == "full" or (cls == "short" and kind == "mantis"):
-                        sc.ctr_set_tweak(kind, 0, sc.rb_nz(tl)); j = 0 if live else j
+                        sc.ctr_set_tweak(kind, 0, sc.rb_nz(tl))
                     elif cls == "short":
-                        sc.ctr_set_tweak(kind, 0, sc.rb_nz(sc.rng.randrange(1, bs))); j = 0 if live else j
+                        sc.ctr_set_tweak(kind, 0, sc.rb_nz(sc.rng.randrange(1, bs)))
                     elif cls == "null":
-                        sc.ctr_set_tweak(kind, 0, None, tl); j = 0 if live else j
+                        sc.ctr_set_tweak(kind, 0, None, tl)
                     elif cls == "zero_len":
                         sc.ctr_set_tweak(kind, 0, sc.rb(tl), 0)
                     else:
                         sc.ctr_set_tweak(kind, 0, sc.rb(tl + 1), tl + 1)
                 elif name == "DoSetCounter":
                     cls = a[0]
+                    if cls != "too_long":
+                        j, since = 0, 0
                     if cls == "full":
-                        sc.ctr_set_counter(kind, 0, sc.rb(bs)); j = 0
+                        sc.ctr_set_counter(kind, 0, sc.rb_nz(bs))
                     elif cls == "short":
-                        sc.ctr_set_counter(kind, 0, sc.rb(sc.rng.randrange(1, bs))); j = 0
+                        sc.ctr_set_counter(kind, 0, sc.rb_nz(sc.rng.randrange(1, bs)))
                     elif cls == "empty":
-                        sc.ctr_set_counter(kind, 0, b"", 0); j = 0
+                        sc.ctr_set_counter(kind, 0, b"", 0)
                     elif cls == "null":
-                        sc.ctr_set_counter(kind, 0, None, sc.rng.randrange(0, bs + 1)); j = 0
+                        sc.ctr_set_counter(kind, 0, None, sc.rng.randrange(0, bs + 1))
                     else:
                         sc.ctr_set_counter(kind, 0, sc.rb(bs + 1), bs + 1)
                 elif name == "DoEncrypt":
                     cls = a[0]
+                    n = None
                     if cls == "zero":
                         sc.ctr_encrypt(kind, 0, b"")
                     elif cls in ("part", "long_part"):
                         base = 0 if cls == "part" else 17 * bs
                         n = base + sc.rng.choice([x for x in range(1, bs) if (j + x) % bs != 0])
-                        sc.ctr_encrypt(kind, 0, sc.rb(n)); j = (j + n) % bs if live else j
                     elif cls in ("align", "long_align"):
                         base = 0 if cls == "align" else 16 * bs
                         n = base + ((bs - j) % bs or bs)
-                        sc.ctr_encrypt(kind, 0, sc.rb(n)); j = 0 if live else j
+                    elif cls == "batch":
+                        n = (8 * bs - since % (8 * bs)) % (8 * bs) or 8 * bs
                     elif cls == "null_in":
                         sc.ctr_encrypt(kind, 0, None, n=5)
                     else:
                         sc.ctr_encrypt(kind, 0, sc.rb(5), outnull=1)
-            # probe: what the object does next shows the effect of the last transition
-            sc.ctr_encrypt(kind, 0, sc.rb(bs + 2))
+                    if n is not None:
+                        sc.ctr_encrypt(kind, 0, sc.rb(n))
+                        if live:
+                            j, since = (j + n) % bs, since + n
+            if probe:
+                # what the object does next shows the effect of the last transition
+                sc.ctr_encrypt(kind, 0, sc.rb(bs + 2))
             sc.ctr_cleanup(kind, 0)
             sc.quiesce()
     return sc
@@ -2703,13 +2729,13 @@ def graph_tweak_scenarios(work, seed, out):
     return sc
 
 
-def graph_par_scenarios(work, seed, cap_for, out, kinds=("s128", "s64", "mantis")):
+def graph_par_scenarios(work, seed, cap_for, out, kinds=("s128", "s64", "mantis"), cfg="Gen_Par", probe=True):
     """every edge of Gen_Par's state graph, concretised for each kind"""
-    init, edges, nn = dump_graph(work, "Gen_Par", "Gen_Par")
+    init, edges, nn = dump_graph(work, "Gen_Par", cfg)
     seqs = edge_cover(init, edges)
-    out.notes.append("Gen_Par graph: %d states, %d edges, %d edge-covering call sequences per kind" % (nn, len(edges), len(seqs)))
+    out.notes.append("%s graph: %d states, %d edges, %d edge-covering call sequences per kind" % (cfg, nn, len(edges), len(seqs)))
     if not kinds:
-        out.mc.append({"model": "Gen_Par (state graph dumped for scenario generation)", "states": nn,
+        out.mc.append({"model": "%s (state graph dumped for scenario generation)" % cfg, "states": nn,
                        "transitions": len(edges), "ok": True, "violated": None, "expected_to_fail": False, "actions": {}})
     sc = Sc(seed + 81)
     nblk = {"zero": 0, "one": 1, "below": 7, "batch": 8, "above": 19}
@@ -2726,10 +2752,10 @@ def graph_par_scenarios(work, seed, cap_for, out, kinds=("s128", "s64", "mantis"
                 elif name == "DoCleanup":
                     sc.par_cleanup(kind, 0)
                 elif name == "DoSetKey":
-                    cls = a[0]
-                    kw = dict(rounds=7, mode=sc.rng.randrange(2))
+                    cls, z = a[0], int(a[1])
+                    kw = dict(rounds=5 + (z % 4), mode=sc.rng.randrange(2))
                     if cls == "valid":
-                        sc.par_set_key(kind, 0, valid_key(sc, kind), **kw)
+                        sc.par_set_key(kind, 0, sc.rb_nz(16 if kind == "mantis" else z * bs), **kw)
                     elif cls == "null":
                         sc.par_set_key(kind, 0, None, bs, **kw)
                     elif cls == "short":
@@ -2748,7 +2774,8 @@ def graph_par_scenarios(work, seed, cap_for, out, kinds=("s128", "s64", "mantis"
                     n = (3 * bs + sc.rng.randrange(1, bs)) if cls == "ragged" else nblk[cls] * bs
                     tw = sc.rb((n // bs + 1) * 8) if kind == "mantis" else None
                     sc.par_crypt(kind, 0, sc.rb(n), enc=(name == "DoEncrypt"), tweak=tw[:n] if tw is not None and n % 8 == 0 else tw)
-            sc.par_crypt(kind, 0, sc.rb(2 * bs), enc=True, tweak=sc.rb(16) if kind == "mantis" else None)
+            if probe:
+                sc.par_crypt(kind, 0, sc.rb(2 * bs), enc=True, tweak=sc.rb(16) if kind == "mantis" else None)
             sc.par_cleanup(kind, 0)
             sc.quiesce()
     return sc
